@@ -1,6 +1,8 @@
 /* C19 — stack_buffer_logger<sink, 8>: text appended through append(char), append(const char *) and operator<<(const char *) in
  * solver-chosen pieces reaches the sink complete and in order, in NUL-terminated chunks that fit the fixed buffer.
- * -DLEN=<message length> (0..3*Limit, one query per length), message bytes and the split into NP pieces solver-chosen. */
+ * -DLEN=<message length> (0..3*Limit), -DP0 -DP1: lengths of the first two of the NP=3 pieces (lengths are case-split into separate
+ * queries: measured, a solver-chosen split costs 120 s at LEN=8 and does not finish at LEN=24); message bytes and the append path of every
+ * piece are solver-chosen. */
 #define VP_PANIC_VIOLATION
 #include "vp.h"
 #include "c19_log.h"
@@ -32,6 +34,9 @@ void harness_log(void) {
 	for(int i = 0; i < NP; i++) {
 		VP_INPUT(kind[i]); VP_INPUT(plen[i]);
 		VP_NATIVE_ONLY(if(getenv("VP_RANDOM")) { kind[i] %= 3; plen[i] = i == NP - 1 ? (uint8_t)(LEN - sum) : (uint8_t)(plen[i] % (LEN - sum + 1)); })
+#ifdef P0
+		{ static const uint8_t fixed[NP] = { P0, P1, LEN - P0 - P1 }; VP_NATIVE_ONLY(if(getenv("VP_RANDOM")) plen[i] = fixed[i];) VP_ASSUME(plen[i] == fixed[i]); plen[i] = fixed[i]; }
+#endif
 		VP_ASSUME(kind[i] <= 2 && plen[i] <= LEN - sum);
 		sum += plen[i];
 	}
